@@ -496,7 +496,12 @@ func runC01(c *Ctx) {
 						return false
 					}
 					sc := staticCallee(cc)
-					return sc != nil && deleters[sc] && len(cc.Common().Args) == 2 && cc.Common().Args[1] == idV
+					if sc == nil || !deleters[sc] || len(cc.Common().Args) < 2 || cc.Common().Args[1] != idV {
+						return false
+					}
+					// deleteQueueC(id, ch): the channel handed over is the one registered with that id (the callee removes the
+					// entry only if it still holds that channel, D13)
+					return len(cc.Common().Args) == 2 || (len(cc.Common().Args) == 3 && cc.Common().Args[2] == chV)
 				}
 				var offending ssa.Instruction
 				for _, r := range returnsOf(f) {
